@@ -267,6 +267,37 @@ func c13ErrMatches(text string, f []string) (bool, string) {
 	return false, "(model outcome " + f[0] + " has no Go text)"
 }
 
+// c13ErrMentions is the fall-back when the text is not the one rebuilt from the
+// model's fields: the error still names the same unit and the same identifiers
+// (every field but the class; lists item by item).  Errors without such fields
+// (namespace, soydoc+header params) are only compared on accept/reject.
+func c13ErrMentions(text string, f []string) bool {
+	switch f[0] {
+	case "parse", "add:crash", "add:outofmodel", "check:fuel", "global:fuel":
+		return false
+	case "add:namespace-expected", "add:namespace-required", "add:both-params":
+		return true
+	}
+	fields := f[1:]
+	if strings.HasPrefix(f[0], "add:") && len(fields) > 0 {
+		fields = fields[1:] // the file being added is not part of any Add error text by itself
+	}
+	if f[0] == "globals-redefined" && len(fields) > 1 {
+		fields = fields[:1]
+	}
+	if f[0] == "check:missing-params" && len(fields) > 2 {
+		fields = fields[:2] // the position of the call is not printed
+	}
+	for _, fld := range fields {
+		for _, item := range strings.Split(fld, ",") {
+			if item != "" && !strings.Contains(text, item) {
+				return false
+			}
+		}
+	}
+	return true
+}
+
 // ---------- the comparison ----------
 
 func c13Model(e *env, c *c13Case, orders [][]int, first *c13Obs, reg *template.Registry) {
@@ -311,7 +342,10 @@ func c13Model(e *env, c *c13Case, orders [][]int, first *c13Obs, reg *template.R
 			}
 			if gv.Err != "" {
 				e.res.Histogram["model:err:"+fields[0]]++
-				if ok, want := c13ErrMatches(gv.Err, fields); !ok {
+				if ok, want := c13ErrMatches(gv.Err, fields); !ok && c13ErrMentions(gv.Err, fields) {
+					// the same unit and names, another wording: the property is not about the wording
+					e.res.Histogram["model:err:wording-differs"]++
+				} else if !ok {
 					e.res.Fail(hx.Violation{Kind: "mismatch", What: "the compile error differs from the model's (" + tag + ")", Case: cs,
 						Expected: hx.Q(want), Observed: hx.Q(gv.Err)}, "")
 					return
